@@ -212,7 +212,7 @@ class ResourceAnalysis:
             for ord_after in ('<', '=', '>'):
                 v = dict(v0, ord_after=ord_after)
                 dom = ResDomain(v); ex = Exec(self.facts, dom)
-                paths = ex.run(f, args=None)
+                paths = [P_ for P_ in ex.run(f, args=None) if P_.end not in ('noreturn', 'throw')]       # a failed assert ends the program: not a behaviour of the lock
                 used = tuple(sorted(dom.consulted))
                 if 'ord_after' not in used and ord_after != '<': continue
                 # rows that differ only in atoms the code never looked at take the same path, but the specification may still
@@ -385,7 +385,7 @@ class ResourceAnalysis:
             if QE and front != 'Read': continue
             v = dict(cnt1=cnt1, QE=QE, front=front, back=front, op=t, t=t)
             dom = ResDomain(v); ex = Exec(self.facts, dom)
-            paths = ex.run(f)
+            paths = [P_ for P_ in ex.run(f) if P_.end not in ('noreturn', 'throw')]
             if not cnt1 and (not QE or front != 'Read' or t != 'Read'):
                 if 'QE' not in dom.consulted: continue     # select not reached: one representative row is enough
             n += 1
@@ -410,6 +410,12 @@ class ResourceAnalysis:
                     no = [i for i, e in enumerate(P.events) if e[0] == 'notify_one']
                     ok10 = bool(na) and bool(lock_i) and any(i > lock_i[0] for i in na)
                     why = ''
+                    if QE and not na and not no:
+                        # nothing was admitted: a request sleeps only after it was queued (RES.2 / RES.8) and the batch it belongs to was
+                        # notified when it was popped, so with an empty queue nobody is waiting for a new bound
+                        self.add('RES.10', True, f'row {row}: the queue is empty, no bound is published and there is nobody to wake', site, '')
+                        self._check_select(P, v, row, dom, this, site)
+                        continue
                     if not ok10:
                         why = ('notify_one() instead of notify_all(): waiters with different tickets share one condition variable, the woken thread may not be the admitted one'
                                if no else 'no notify_all() accompanies the new bound: admitted waiters are never woken')
